@@ -275,6 +275,8 @@ def out_code(o, pid):
         return ["X", res, o["a"][0] == pid, name is not None and bytes.fromhex(name["b"]) == b"nm"]
     if t == "Raw":
         return ["X", "RRaw", True, True]
+    if t == "RawProbe":
+        return ["X", "RRawProbe", True, True]
     if t == "Val":
         return ["X", "RVal", True, True]
     if t == "TimeoutExpired":
@@ -299,6 +301,17 @@ def pair_cond_list(plat):
     """Same order as Spec.pair_conds."""
     es = [e for e in ERR_ORDER if e in errs_of(plat)]
     return [(e1, e2, st, z) for e1 in es for e2 in es for st in STATES for z in (False, True)]
+
+
+def probe_cond_list(plat):
+    """Same order as Spec.probe_conds."""
+    es = [e for e in ERR_ORDER if e in errs_of(plat)]
+    return [(e1, e2, z) for e1 in es for e2 in es for z in (False, True)]
+
+
+def probefault_outcome(layer, meth, site, e1, e2, pid):
+    kind, r = layer.run(meth, pid=pid, state="alive", site=site, err=e1, probe_err=e2)
+    return S.classify(layer, kind, r)
 
 
 def pair_outcome(layer, meth, s1, s2, e1, e2, state, pid):
@@ -359,7 +372,7 @@ def run_nic(fe, fam, addr, mask, bcast):
 
 def probe_all(impl_dir, workdir):
     out = {"slot_maps": [], "usage": [], "ladder": [], "sites": {}, "names": [], "nic": [], "methods": {},
-           "status": [], "sladder": [], "pairs": [], "retry": [], "wait": [], "sysfields": [], "allfail": []}
+           "status": [], "sladder": [], "pairs": [], "retry": [], "wait": [], "sysfields": [], "allfail": [], "probe": []}
     for plat in S.PLATS:
         layer = S.Layer(plat, impl_dir)
         for m in MAPS[plat]:
@@ -388,6 +401,10 @@ def probe_all(impl_dir, workdir):
                     pid = 0 if pid0 else 7
                     outs.append(out_code(ladder_outcome(layer, meth, site, e, st, pid), pid))
                 out["ladder"].append({"plat": plat, "meth": meth, "site": site, "outs": outs})
+                if plat != "windows":      # double fault: the call fails with e1, every follow-up probe with e2
+                    po = [out_code(probefault_outcome(layer, meth, site, e1, e2, 0 if z else 7), 0 if z else 7)
+                          for (e1, e2, z) in probe_cond_list(plat)]
+                    out["probe"].append({"plat": plat, "meth": meth, "site": site, "outs": po})
                 # ESRCH for a PID listed with each native status code of PROC_STATUSES
                 for code, _text in codes:
                     so = [out_code(ladder_outcome(layer, meth, site, "ESRCH", "code:" + code, pid), pid) for pid in (7, 0)]
@@ -532,6 +549,10 @@ def emit_coq(data):
     L.append("Definition all_blocks : list lblock := [")
     L.append(";\n".join("  Build_lblock %s %s %s [%s]" % (COQ_PLAT[b["plat"]], qs(b["meth"]), qs(b["site"]), _outs_coq(b["outs"]))
                         for b in data["allfail"]))
+    L.append("].\n")
+    L.append("Definition probe_blocks : list lblock := [")
+    L.append(";\n".join("  Build_lblock %s %s %s [%s]" % (COQ_PLAT[b["plat"]], qs(b["meth"]), qs(b["site"]), _outs_coq(b["outs"]))
+                        for b in data["probe"]))
     L.append("].\n")
     L.append("Definition status_rows : list srow := [")
     L.append(";\n".join("  Build_srow %s [%s]" % (COQ_PLAT[r["plat"]], "; ".join("(%s, %s)" % (qs(c), qs(t)) for c, t in r["codes"]))
